@@ -370,7 +370,7 @@ func genRT(pr rtProfile) func(r *rand.Rand, w *W) [][]string {
 				pool = append(pool, p)
 				stems = append(stems, p)
 			}
-			switch r.Intn(11) {
+			switch r.Intn(13) {
 			case 0: // a parameter route that is a prefix of another one, emptied by explicit method lists, then its twin
 				par := pick(r, []string{"{id}", "{id:digit}", "{id:\\d+}", "{id:[a-z]+}"})
 				if par == "{id:digit}" && len(ics) == 0 {
@@ -457,7 +457,7 @@ func genRT(pr rtProfile) func(r *rand.Rand, w *W) [][]string {
 					addH(base+"/users/"+par+"/posts/{n}", "GET")
 				}
 				observe()
-				if pr.facades {
+				if pr.facades || r.Intn(2) == 0 {
 					id := "c" + itoa(len(ops))
 					ops = append(ops, append([]string{"prefix", id, "r", base + "/users/" + par + pick(r, []string{"/", "/posts", "/p"})}, list()...), []string{"clean", id})
 				} else {
@@ -514,6 +514,25 @@ func genRT(pr rtProfile) func(r *rand.Rand, w *W) [][]string {
 				pool = append(pool, full)
 				observe()
 				w.Count("shape-facade-before-use")
+			case 10: // a literal label that begins with '{' (an unterminated brace is literal text) among >= 5 siblings,
+				// next to parameter siblings; then the same pattern and method again (must be rejected)
+				for _, c := range []string{"a", "b", "c", "d"} {
+					addH(base+"/p/"+c, "GET")
+				}
+				addH(base+"/p/{x", "GET")
+				addH(base+"/p/{id}", "GET")
+				addH(base+"/p/{id}", "GET")
+				addH(base+"/p/{id}", "POST", "GET")
+				ops = append(ops, []string{"serve", "GET", base + "/p/7"}, []string{"serve", "POST", base + "/p/7"}, []string{"serve", "GET", base + "/p/{x"})
+				w.Count("shape-brace-literal-among-siblings")
+			case 11: // two routes that share literal text after differently named parameters; a method added later to the
+				// longer one is not ambiguous with anything
+				addH(base+"/p/{a}/x/{c}", "GET")
+				addH(base+"/p/{b}/x/{c}/more", "GET")
+				addH(base+"/p/{b}/x/{c}/more", "POST")
+				addH(base+"/p/{a}/x/{c}", "PUT")
+				ops = append(ops, []string{"serve", "POST", base + "/p/1/x/2/more"}, []string{"serve", "OPTIONS", base + "/p/1/x/2/more"})
+				w.Count("shape-shared-text-after-parameters")
 			default: // '-' parameters with alternations
 				addH(base+"/{-ver:v1|v2}/users", "GET")
 				addH(base+"/{kind:a|ab}/x", "GET")
